@@ -115,6 +115,16 @@ class BodyAn:
     def is_param(self, l):
         return 1 <= l <= self.body.arg_count
 
+    def init_expr(self, l):
+        """Initialiser of an object local that is later mutated in place (`let mut x = <init>;`)."""
+        ds = self.defs[l]
+        if len(ds) != 1:
+            return None
+        bi, idx, kind, payload = ds[0]
+        if kind == "assign":
+            return self.expr_rvalue(payload, (bi, idx))
+        return self.expr_call(payload, (bi, "term"))
+
     def stable(self, l):
         """Local whose value is one expression everywhere it is used."""
         if self.partial[l] or self.mutref[l]:
